@@ -14,7 +14,9 @@ def arithF : Arith Float :=
     lt := fun a b => a < b, le := fun a b => a ≤ b, beq := fun a b => a == b,
     equal := GenF.Equal,
     trunc := fun x => Float.ofInt (x.toInt64.toInt),
-    sqrt2 := 1.4142135623730951, c1001 := 1.001, fmax := goMax }
+    sqrt2 := 1.4142135623730951, c1001 := 1.001, fmax := goMax,
+    -- math.Hypot(x, 1) for x ≥ 1: p * sqrt(1 + (q/p)^2) with p = x, q = 1
+    hypot1 := fun x => x * Float.sqrt (1.0 + (1.0 / x) * (1.0 / x)) }
 
 def decodeF (x : Float) : Nat × Int :=
   let b := x.toBits.toNat % 2 ^ 63
@@ -47,6 +49,7 @@ def opsF : Ops Float :=
     -- identities used by the harness: cappers 0 Butt 1 Round 2 Square; joiners 0 Miter(4) 1 Bevel 2 Round 3 Arcs(4) 4 MiterClip(4)
     isSquareCap := fun k => k == 2,
     joinLimit := fun k => if k == 0 || k == 3 || k == 4 then some 4.0 else none,
+    joinClips := fun k => k == 4,
     checkDash := checkDashImpl arithF fmodF }
 
 inductive Cmd
@@ -195,7 +198,7 @@ def showObs (s : Heap.State Float) : List String :=
 def execH : List HCmd → Heap.State Float → List String → List String
   | [], _, out => out
   | .obs :: rest, s, out => execH rest s (out ++ showObs s)
-  | .op o :: rest, s, out => execH rest (Heap.step 0.0 (checkDashImpl arithF fmodF) o s) out
+  | .op o :: rest, s, out => execH rest (Heap.step 0.0 (drawDashes opsF 1.0) o s) out
 
 def pairs? : Nat → List String → Option (List (Int × Nat) × List String)
   | 0, ts => some ([], ts)
